@@ -59,7 +59,7 @@ def run(ctx, rep):
     if len(st) != 1:
         rep.anchor("C08.tracker", "SetTracker::visit_node")
     else:
-        f = st[0]
+        f = F.inlined(st[0], ("inner", "next", "insert", "ihr"))
         T = Terms(f)
         ins = [cs for cs in f.calls() if cs.name == "insert" and "HashSet" in cs.callee]
         # which set an insertion updates and on which key: flow-insensitive provenance is enough for identity
